@@ -102,30 +102,41 @@ Proof. intros ND G v IN. apply (get_str_in k kvs v ND) in IN. congruence. Qed.
 Lemma depth1000_S : depth1000 = S (Nat.pred depth1000).
 Proof. reflexivity. Qed.
 
-Lemma reason_lemma rs old new r :
+(* the kernel must not unfold the 1000-deep literal while re-checking the proof below *)
+#[local] Opaque depth1000.
+
+Lemma reason_lemma ss rs old new d r :
   NoDup (map fst old) -> NoDup (map fst new) ->
-  diff_env rs (VDict old) (VDict new) = Ok (false, r) ->
+  diff_depth rs depth1000 (VDict old) (VDict new) = Ok (Some d) ->
+  diff_env ss rs (VDict old) (VDict new) = Ok (false, r) ->
   forall k, In k function_env_keys ->
     (is_substr k r = true <->
      env_differs (Nat.pred depth1000) (dict_get (VStr k) old) (dict_get (VStr k) new)).
 Proof.
-  intros NO NN D k IN. unfold diff_env in D.
-  destruct (veq_d depth1000 (VDict old) (VDict new)) as [[|]|]; try discriminate.
-  apply bind_ok in D as (d & DD & D).
-  destruct d as [[| |o n edits]|]; try discriminate.
-  inversion D; subst r; clear D.
-  rewrite depth1000_S in DD.
-  apply mapping_edits_exact_lemma in DD as (edits' & E & SOUND & (C1 & C2 & C3)).
-  inversion E; subst o n edits'; clear E.
-  unfold reasons_of. rewrite reason_mentions by exact IN. rewrite has_edit_iff.
-  split.
-  - intros (e & INE). destruct (SOUND _ _ INE) as [(ov & I1 & I2 & _)|[(ov & nv & df & I1 & I2 & I3 & _)|(nv & I1 & I2 & _)]].
-    + apply (get_str_in k old ov NO) in I1. rewrite I1, I2. exact I.
-    + apply (get_str_in k old ov NO) in I1. rewrite I1, I2. exact I3.
-    + apply (get_str_in k new nv NN) in I1. rewrite I1, I2. exact I.
-  - intros DF. destruct (dict_get (VStr k) old) as [ov|] eqn:GO; destruct (dict_get (VStr k) new) as [nv|] eqn:GN; simpl in DF.
-    + apply (get_str_in k old ov NO) in GO. destruct (C2 _ _ _ GO GN DF) as (df & I1 & _). eauto.
-    + apply (get_str_in k old ov NO) in GO. eauto.
-    + apply (get_str_in k new nv NN) in GN. eauto.
-    + contradiction.
+  intros NO NN DD D k IN. unfold diff_env in D.
+  assert (VE : veq_d depth1000 (VDict old) (VDict new) = Some false).
+  { rewrite depth1000_S in DD. apply diff_depth_some in DD as [V _]. rewrite <- depth1000_S in V. exact V. }
+  rewrite VE in D.
+  destruct ss; [|discriminate|].
+  all: rewrite DD in D.
+  all: destruct d as [| |o n edits]; try discriminate.
+  all: inversion D; subst r; clear D.
+  all: rewrite depth1000_S in DD.
+  all: apply mapping_edits_exact_lemma in DD as (edits' & E & SOUND & (C1 & C2 & C3)).
+  all: inversion E; subst o n edits'; clear E.
+  all: unfold reasons_of; rewrite reason_mentions by exact IN; rewrite has_edit_iff.
+  all: split;
+    [ intros (e & INE); destruct (SOUND _ _ INE) as [(ov & I1 & I2 & _)|[(ov & nv & df & I1 & I2 & I3 & _)|(nv & I1 & I2 & _)]];
+      [ apply (get_str_in k old ov NO) in I1; rewrite I1, I2; exact I
+      | apply (get_str_in k old ov NO) in I1; rewrite I1, I2; exact I3
+      | apply (get_str_in k new nv NN) in I1; rewrite I1, I2; exact I ]
+    | intros DF; destruct (dict_get (VStr k) old) as [ov|] eqn:GO; destruct (dict_get (VStr k) new) as [nv|] eqn:GN; simpl in DF;
+      [ apply (get_str_in k old ov NO) in GO; destruct (C2 _ _ _ GO GN DF) as (df & I1 & _); eauto
+      | apply (get_str_in k old ov NO) in GO; eauto
+      | apply (get_str_in k new nv NN) in GN; eauto
+      | contradiction ] ].
 Qed.
+
+(** the generic reason names no key *)
+Lemma generic_reason_lemma : forallb (fun k => negb (is_substr k s_environment_changed)) function_env_keys = true.
+Proof. vm_compute. reflexivity. Qed.
